@@ -2,12 +2,15 @@
    specification (the right-hand sides of the theorems in Chain/ChainProofs.v, computed from the
    failure placement without running the model).
 
-   Values are ids in Z: 0 is "the zero value of the slot's type", the instrumented stage functions
-   of the harness only produce ids >= 1.  Errors are identity tags: 0 = nil, 1 and 2 the two
+   Values are ids in Z: 0 is "the zero value of the slot's type" (nil pointer, nil map, 0, "" ...),
+   ids >= 1 are non-zero values.  The instrumented stage functions of the harness produce ids >= 1,
+   except for the results named by a zero mask (composez) and for gval = 0 / list elements 0 /
+   arguments 0, which stand for a stage that returns a zero value next to a nil error.  Errors are identity tags: 0 = nil, 1 and 2 the two
    sentinel errors (same text, different pointers), 9 anything else.
 
    Observation lines (REAL is what the driver saw, or the symbol panic):
      (compose (a0 .. an) (e0 .. e(n-1)) (args) (ret (res) err ((stage arg ..) ..)))
+     (composez (a0 .. an) (e0 .. e(n-1)) (z0 .. z(n-1)) (args) (ret ..))   bit j of zi: result j of stage i is 0
      (fmap ARITY gerr gval (ret RES err log))         RES = (res) | nil | (tuple (res) (res))
      (bind gerr gval ferr (ret (res) err log))
      (join N err ferr conv (ret (res) err log))
@@ -37,13 +40,24 @@ Definition err_z (o : option Z) : Z := match o with None => 0%Z | Some e => e en
 
 Definition hvals (i nres : nat) (a : list Z) : list Z := map (fun j => mix i j a) (seq 0 nres).
 
+(* with a zero mask: result j is the zero value when bit j of the mask is set *)
+Definition hvalsz (i nres : nat) (mask : Z) (a : list Z) : list Z :=
+  map (fun j => if Z.testbit mask (Z.of_nat j) then 0%Z else mix i j a) (seq 0 nres).
+
 (* a stage returns its (junk, non-zero) values next to the error it is configured to report *)
 Definition hstage (i nres : nat) (etag : Z) : @stage Z Z := fun a => (hvals i nres a, err_of etag).
+Definition hstagez (i nres : nat) (mask etag : Z) : @stage Z Z := fun a => (hvalsz i nres mask a, err_of etag).
 
 Fixpoint hstages (i : nat) (ar : list nat) (errs : list Z) : list (@stage Z Z) :=
   match ar, errs with
   | nres :: ar', e :: errs' => hstage i nres e :: hstages (S i) ar' errs'
   | _, _ => []
+  end.
+
+Fixpoint hstagesz (i : nat) (ar : list nat) (errs zs : list Z) : list (@stage Z Z) :=
+  match ar, errs, zs with
+  | nres :: ar', e :: errs', z :: zs' => hstagez i nres z e :: hstagesz (S i) ar' errs' zs'
+  | _, _, _ => []
   end.
 
 (* ---- printing ---- *)
@@ -74,29 +88,38 @@ Fixpoint first_fail (k : nat) (errs : list Z) : option (nat * Z) :=
 
 Definition get_nats (e : sexp) : option (list nat) := option_map (map Z.to_nat) (get_zs e).
 
-Definition eval_compose (ar errs args real : sexp) : verdict :=
-  match get_nats ar, get_zs errs, get_zs args with
-  | Some (a0 :: ar'), Some es, Some a =>
-      if negb (Nat.eqb (length ar') (length es) && Nat.eqb a0 (length a) && Nat.leb 1 (length es))
+Definition eval_composez (ar errs zs args real : sexp) : verdict :=
+  match get_nats ar, get_zs errs, get_zs zs, get_zs args with
+  | Some (a0 :: ar'), Some es, Some ms, Some a =>
+      if negb (Nat.eqb (length ar') (length es) && Nat.eqb (length ms) (length es) &&
+               Nat.eqb a0 (length a) && Nat.leb 1 (length es))
       then bad_line else
-      let fs := hstages 0 ar' es in
+      let fs := hstagesz 0 ar' es ms in
+      let zt := (if existsb (fun x => negb (x =? 0)%Z) ms then "+zero-results" else "") ++
+                (if existsb (fun x => (x =? 0)%Z) a then "+zero-args" else "") in
       let nfinal := last ar' 0%nat in
       let model := cout_sexp (compose 0%Z fs nfinal a) in
       let ins := inputs fs a in
       match first_fail 0 es with
       | Some (k, e) =>
           let later := existsb (fun x => negb (x =? 0)%Z) (skipn (S k) es) in
-          mk ("compose/n" ++ digit (length es) ++ "/fail@" ++ digit k ++ (if later then "+later" else ""))
+          mk ("compose/n" ++ digit (length es) ++ "/fail@" ++ digit k ++ (if later then "+later" else "") ++ zt)
              model
              (ret3 (of_zs (repeat 0%Z nfinal)) (Some e)
                    (log_sexp (combine (seq 0 (S k)) (firstn (S k) ins))))
              real
       | None =>
-          mk ("compose/n" ++ digit (length es) ++ "/ok") model
+          mk ("compose/n" ++ digit (length es) ++ "/ok" ++ zt) model
              (ret3 (of_zs (seq_compose fs a)) None (log_sexp (combine (seq 0 (length fs)) ins)))
              real
       end
-  | _, _, _ => bad_line
+  | _, _, _, _ => bad_line
+  end.
+
+Definition eval_compose (ar errs args real : sexp) : verdict :=
+  match get_zs errs with
+  | Some es => eval_composez ar errs (of_zs (repeat 0%Z (length es))) args real
+  | None => bad_line
   end.
 
 (* ---- fmap ---- *)
@@ -136,7 +159,8 @@ Definition eval_fmap (arity gerr gval real : sexp) : verdict :=
         else
           ret3 (match n with 0%nat => L [] | 1%nat => of_zs [0%Z] | _ => Sym "nil" end)
                (Some ge) (log_sexp [(0%nat, [])]) in
-      mk ("fmap/arity" ++ digit n ++ (if (ge =? 0)%Z then "/ok" else "/g-fails")) model spec real
+      mk ("fmap/arity" ++ digit n ++ (if (ge =? 0)%Z then "/ok" else "/g-fails") ++
+          (if (gv =? 0)%Z then "+zero-value" else "")) model spec real
   | _, _, _ => bad_line
   end.
 
@@ -150,7 +174,8 @@ Definition eval_bind (gerr gval ferr real : sexp) : verdict :=
         if (ge =? 0)%Z
         then ret3 (of_zs [mix 1 0 [gv]]) (err_of fe) (log_sexp [(0%nat, []); (1%nat, [gv])])
         else ret3 (of_zs [0%Z]) (Some ge) (log_sexp [(0%nat, [])]) in
-      mk (if (ge =? 0)%Z then (if (fe =? 0)%Z then "bind/ok" else "bind/f-fails") else "bind/g-fails")
+      mk ((if (ge =? 0)%Z then (if (fe =? 0)%Z then "bind/ok" else "bind/f-fails") else "bind/g-fails") ++
+          (if (gv =? 0)%Z then "+zero-value" else ""))
          model spec real
   | _, _, _ => bad_line
   end.
@@ -182,7 +207,11 @@ Fixpoint lookup (x : Z) (tbl : list (Z * Z)) : Z :=
 Definition get_pair (e : sexp) : option (Z * Z) :=
   match e with L [Num a; Num b] => Some (a, b) | _ => None end.
 
-Definition tstage (tbl : list (Z * Z)) (x : Z) : Z * option Z := (mix 0 0 [x], err_of (lookup x tbl)).
+(* table entry 4: the element's result is the zero value of its type, with a nil error *)
+Definition terr (tbl : list (Z * Z)) (x : Z) : Z := if (lookup x tbl =? 4)%Z then 0%Z else lookup x tbl.
+Definition tval (tbl : list (Z * Z)) (x : Z) : Z := if (lookup x tbl =? 4)%Z then 0%Z else mix 0 0 [x].
+
+Definition tstage (tbl : list (Z * Z)) (x : Z) : Z * option Z := (tval tbl x, err_of (terr tbl x)).
 
 Definition gslice_sexp (s : gslice Z) : sexp :=
   match s with SNil => Sym "nil" | SList l => of_zs l end.
@@ -190,8 +219,8 @@ Definition gslice_sexp (s : gslice Z) : sexp :=
 Fixpoint first_bad (tbl : list (Z * Z)) (seen todo : list Z) : option (list Z * Z) :=
   match todo with
   | [] => None
-  | x :: t => if (lookup x tbl =? 0)%Z then first_bad tbl (seen ++ [x])%list t
-              else Some ((seen ++ [x])%list, lookup x tbl)
+  | x :: t => if (terr tbl x =? 0)%Z then first_bad tbl (seen ++ [x])%list t
+              else Some ((seen ++ [x])%list, terr tbl x)
   end.
 
 Definition eval_traverse (ids tbl real : sexp) : verdict :=
@@ -205,11 +234,14 @@ Definition eval_traverse (ids tbl real : sexp) : verdict :=
                        end in
           match first_bad tb [] l with
           | Some (visited, e) =>
-              mk ("traverse/len" ++ digit (length l) ++ "/fail@" ++ digit (length visited - 1))
+              mk ("traverse/len" ++ digit (length l) ++ "/fail@" ++ digit (length visited - 1) ++
+                  (if existsb (fun x => (x =? 0)%Z) l then "+zero-elem" else ""))
                  model (ret3 (Sym "nil") (Some e) (of_zs visited)) real
           | None =>
-              mk ("traverse/len" ++ digit (length l) ++ "/ok")
-                 model (ret3 (of_zs (map (fun x => mix 0 0 [x]) l)) None (of_zs l)) real
+              mk ("traverse/len" ++ digit (length l) ++ "/ok" ++
+                  (if existsb (fun x => (x =? 0)%Z) l then "+zero-elem" else "") ++
+                  (if existsb (fun x => (tval tb x =? 0)%Z) l then "+zero-result" else ""))
+                 model (ret3 (of_zs (map (tval tb) l)) None (of_zs l)) real
           end
       | None => bad_line
       end
@@ -226,7 +258,8 @@ Definition eval_toerror (nout args success etag real : sexp) : verdict :=
       let model := ret3 (of_zs outs) e (L (map of_zs lg)) in
       let spec := ret3 (of_zs (hvals 0 n a)) (if ok then None else err_of et) (L [of_zs a]) in
       mk ("toerror/n" ++ digit n ++ (if ok then "/true" else "/false") ++
-          (if (et =? 0)%Z then "/nil-err" else ""))
+          (if (et =? 0)%Z then "/nil-err" else "") ++
+          (if existsb (fun x => (x =? 0)%Z) a then "+zero-args" else ""))
          model spec real
   | _, _, _, _ => bad_line
   end.
@@ -359,6 +392,7 @@ Definition eval16 (e : sexp) : verdict :=
           bad_line
       | [n; err; ferr; conv; real] =>
           if String.eqb k "join" then eval_join n err ferr conv real else
+          if String.eqb k "composez" then eval_composez n err ferr conv real else
           if String.eqb k "toerror" then eval_toerror n err ferr conv real else
           bad_line
       | [a; b; real] =>
